@@ -454,3 +454,33 @@ func TestC06AllTTLs(t *testing.T) {
 		}
 	}, checkC06)
 }
+
+// TestC06UDP6ChecksumSearch: a UDP/IPv6 probe whose computed checksum is zero must carry 0xffff (zero is
+// illegal over IPv6). The source port is chosen by the kernel, so the harness cannot construct the case;
+// it searches instead: every run of 255 probes has 255 independent 16-bit checksums.
+func TestC06UDP6ChecksumSearch(t *testing.T) {
+	n := 900
+	if tier() == "thorough" {
+		n = 4000
+	}
+	n = envInt("VERIF_C06_SEARCH", n)
+	rec := NewRecorder("C06", "C06UDP6ChecksumSearch", fmt.Sprintf("search: %d UDP/IPv6 runs over TTL 1..255 against a silent world with generated target addresses and ports (%d probes, each with an independent 16-bit checksum; the expected number whose computed checksum is zero is %.1f); every probe is verified by the independent codec; non-trivial = the run emitted 255 well-formed probes", n, n*255, float64(n*255)/65536))
+	RunCases(t, rec, func(yield func(*Scenario) bool) {
+		for i := 0; i < n; i++ {
+			sc := &Scenario{Variant: "udp6", Strict: true, MinTTL: 1, MaxTTL: 255, TimeoutMs: 1, DelayMs: 0, PollMs: 100,
+				Target: fmt.Sprintf("2001:db8:%x:%x::%x", i&0xffff, (i*7919)&0xffff, 1+i%9), Port: 1 + (i*104729)%65535,
+				Script: FlowScript{Default: HopSpec{Silent: true}}}
+			if !yield(sc) {
+				return
+			}
+		}
+	}, func(t *testing.T, sc *Scenario, rec *Recorder) []Diff {
+		o := RunScenario(t, sc)
+		if o.Wire == nil || o.Err != nil {
+			return []Diff{{"C06", "run-error", fmt.Sprintf("udp6 run failed: %v %s", o.Err, o.Panic)}}
+		}
+		ds := CheckEmission(sc, o)
+		rec.Case(scenarioKey(sc), len(o.Wire.Sends(0)) == 255 && len(ds) == 0, nil)
+		return ds
+	})
+}
